@@ -144,6 +144,10 @@ def run_shard(ctx):
     for i in ctx.cases(ncases(ctx.tier)):
         case = make_case(ctx.rng(i))
         viol, nt = one_case(ctx, case["program"], case["stops"])
+        if i % 4 == 0:
+            bv, n = kern.bare_spec_violation(case["program"])
+            viol += bv
+            ctx.count("bare_runs_compared")
         for m, what, wit in viol:
             ctx.violation(mech_name(m, wit), what, wit, case)
         ctx.case_done(case, nt)
@@ -153,5 +157,6 @@ def replay(ctx, case):
     if "probe" in case:
         return negative_delay_probes(ctx)
     viol, _ = one_case(ctx, case["program"], case["stops"])
+    viol += kern.bare_spec_violation(case["program"])[0]
     for m, what, wit in viol:
         ctx.violation(mech_name(m, wit), what, wit, case)
